@@ -513,7 +513,8 @@ TRUSTED = [
 ASSUMPTIONS = [
     "IRIs are passed to the manager as URIRef, prefixes and CURIEs as str (the qname cache and the tries key on the Python type too)",
     "the values of __strie alias nodes of __trie; the model looks the node up in the trie instead",
-    "one NamespaceManager per store (no second graph binding on the same store behind the manager's back)",
+    "one NamespaceManager per store (a second graph on the same store has a qname cache of its own; the parsers share "
+    "the sink's manager since the fix for F6d)",
     "the while-loops that search a free numbered prefix are bounded by |bindings|+1 iterations",
 ]
 RULE = ("histories of 2-12 operations over 2-5 namespaces drawn from a nested/overlapping family and 2-5 prefixes "
